@@ -135,6 +135,13 @@ class ExprMixin:
             raise Unsupported("truth value of a list object (its emptiness lives on the heap)")
         if isinstance(v, VRef) and self.classes.get(v.cls, {}).get("boxed_valueset"):
             raise Unsupported("truth value of a set object (its emptiness lives on the heap)")
+        if isinstance(v, (VRef, VRec)) and any(getattr(self.externals.get(f"{v.cls}.{d_}"), "pure", False) for d_ in ("__bool__", "__len__")):
+            # truth protocol for an object of a third-party class whose __bool__ / __len__ the sidecar models (assumed external,
+            # pure): bool(x) is x.__bool__() if the class has one, else x.__len__() != 0
+            d_ = "__bool__" if getattr(self.externals.get(f"{v.cls}.__bool__"), "pure", False) else "__len__"
+            self.used_externals.add(f"{v.cls}.{d_}")
+            r_ = self.externals[f"{v.cls}.{d_}"](self, [v], {}, None, None)
+            return r_ if d_ == "__bool__" else to_z3(r_) != 0
         if isinstance(v, (VRef, VRec, VFunc, VChar)):
             return True
         if isinstance(v, VOpt):
@@ -537,6 +544,10 @@ class ExprMixin:
             return str(v)
         if is_int(v):
             return z3.If(v >= 0, z3.IntToStr(v), z3.Concat(z3.StringVal("-"), z3.IntToStr(-v)))
+        if isinstance(v, Fraction) and not self.spec:
+            # text of a concrete float (floats are kept as exact fractions; Python's shortest-repr digits of the rounded binary
+            # value are not modelled): an UNKNOWN string - nothing is assumed about it, not even that two conversions agree
+            return z3.String(uid("float_text"))
         raise Unsupported(f"str() of {v!r}")
 
     def concat_str(self, parts):
